@@ -63,6 +63,14 @@ SHAPES = [
     _shape("SH_NULLIF_RIGHT", "arrow-select/src/nullif.rs", r"Some\(nulls\)\s*=>\s*right\.values\(\)\s*&\s*nulls\.inner\(\)(\s*),"),
     _shape("SH_SHIFT_GUARD", "arrow-select/src/window.rs", r"offset\s*==\s*i64::MIN\s*\|\|\s*abs\(offset\)\s*>=\s*value_len(\s*)\{"),
     _shape("SH_INTERNER_CMP", "arrow-select/src/dictionary.rs", r"if\s+\*current\s*!=\s*new(\s*)\{\s*\*v\s*=\s*f\(\)\?;\s*\*current\s*=\s*new;"),
+    _shape("SH_CONCAT_LISTS_SLICES", "arrow-select/src/concat.rs", r"list_has_slices\s*\|=\s*l\.offsets\(\)\[0\]\s*>\s*OffsetSize::zero\(\)\s*\|\|\s*l\.offsets\(\)\.last\(\)\.unwrap\(\)\.as_usize\(\)\s*<\s*l\.values\(\)\.len\(\)(\s*);"),
+    _shape("SH_CONCAT_MAPS_SLICES", "arrow-select/src/concat.rs", r"map_has_slices\s*\|=\s*m\.offsets\(\)\[0\]\s*>\s*0\s*\|\|\s*m\.offsets\(\)\.last\(\)\.unwrap\(\)\.as_usize\(\)\s*<\s*m\.entries\(\)\.len\(\)(\s*);"),
+    _shape("SH_CONCAT_LISTS_RANGE", "arrow-select/src/concat.rs", r"let\s+start_offset\s*=\s*offsets\[0\]\.as_usize\(\);\s*let\s+end_offset\s*=\s*offsets\.last\(\)\.unwrap\(\)\.as_usize\(\);\s*sliced_values\.push\(l\.values\(\)\.slice\(start_offset,\s*end_offset\s*-\s*start_offset\)\)(\s*);"),
+    _shape("SH_CONCAT_MAPS_RANGE", "arrow-select/src/concat.rs", r"let\s+start_offset\s*=\s*offsets\[0\]\.as_usize\(\);\s*let\s+end_offset\s*=\s*offsets\.last\(\)\.unwrap\(\)\.as_usize\(\);\s*let\s+entries_arr:\s*&dyn\s+Array\s*=\s*m\.entries\(\);\s*sliced_entries\.push\(entries_arr\.slice\(start_offset,\s*end_offset\s*-\s*start_offset\)\)(\s*);"),
+    _shape("SH_CONCAT_LISTS_BRANCH", "arrow-select/src/concat.rs", r"let\s+values:\s*Vec<&dyn\s+Array>\s*=\s*if\s+list_has_slices(\s*)\{[\s\S]*?\}\s*else\s*\{\s*lists\.iter\(\)\.map\(\|x\|\s*x\.values\(\)\.as_ref\(\)\)\.collect\(\)"),
+    _shape("SH_CONCAT_MAPS_BRANCH", "arrow-select/src/concat.rs", r"let\s+entries:\s*Vec<&dyn\s+Array>\s*=\s*if\s+map_has_slices(\s*)\{[\s\S]*?\}\s*else\s*\{\s*maps\.iter\(\)\.map\(\|m\|\s*m\.entries\(\)\s*as\s*&dyn\s+Array\)\.collect\(\)"),
+    _shape("SH_CONCAT_LISTS_LENGTHS", "arrow-select/src/concat.rs", r"OffsetBuffer::<OffsetSize>::from_lengths\(lists\.iter\(\)\.flat_map\(\|x\|\s*x\.offsets\(\)\.lengths\(\)\)\)(\s*);"),
+    _shape("SH_CONCAT_MAPS_LENGTHS", "arrow-select/src/concat.rs", r"OffsetBuffer::<i32>::from_lengths\(maps\.iter\(\)\.flat_map\(\|m\|\s*m\.offsets\(\)\.lengths\(\)\)\)(\s*);"),
     _shape("SH_CONCAT_BYTES_SHIFT", "arrow-array/src/builder/generic_bytes_builder.rs", r"let\s+shift:\s*T::Offset\s*=\s*self\.next_offset\(\)\s*-\s*offsets\[0\](\s*);"),
 ]
 CONSTANTS["C03"].extend(SHAPES)
